@@ -366,8 +366,13 @@ func runC16Query(st *ev.Stats, c C16Case) string {
 		coin := sdk.NewCoin(chain.Denom, sdkmath.NewIntFromBigInt(milli(p.Amt)))
 		num, seq := txb.AccInfo(n.Ctx(), app, pxSigner.Addr)
 		var msg sdk.Msg = stakingtypes.NewMsgDelegate(pxSigner.Addr, v, coin)
-		if p.K == "undelegate" {
+		switch p.K {
+		case "undelegate":
 			msg = stakingtypes.NewMsgUndelegate(pxSigner.Addr, v, coin)
+		case "setw", "undelegate-all":
+			// (queries: these prelude kinds stand for a redelegation to the next validator, which creates the entries
+			// the redelegation queries read)
+			msg = stakingtypes.NewMsgBeginRedelegate(pxSigner.Addr, v, vals[(p.Val+1)%len(vals)].GetOperator(), coin)
 		}
 		n.DeliverTx(txb.CosmosTx(pxSigner, txb.Cosmos{Msgs: []sdk.Msg{msg}, Gas: 1500000, Fee: coinsOfGas(1500000, gwei10), ChainID: chain.ChainID, AccNum: num, Seq: seq}))
 	}
@@ -427,6 +432,68 @@ func runC16Query(st *ev.Stats, c C16Case) string {
 				if !containsAll(gotB, coin.Amount.String(), addr.Hex()) {
 					return fail("query-differs:bank.balances", fmt.Sprintf("balance %s (token %s) missing from %s", coin, addr.Hex(), trunc(gotB)))
 				}
+			}
+		}
+	}
+	// redelegation(delegator, src, dst) for every ordered validator pair
+	type pageReq struct {
+		Key        []byte
+		Offset     uint64
+		Limit      uint64
+		CountTotal bool
+		Reverse    bool
+	}
+	nRed := 0
+	for _, src := range vals {
+		for _, dst := range vals {
+			if src.OperatorAddress == dst.OperatorAddress {
+				continue
+			}
+			red, found := app.StakingKeeper.GetRedelegation(ctx, pxSigner.Addr, src.GetOperator(), dst.GetOperator())
+			out, err := call("staking", "redelegation", pxSigner.Hex, src.OperatorAddress, dst.OperatorAddress)
+			if err != nil {
+				return fail("query-failed:staking.redelegation", err.Error())
+			}
+			got := fmt.Sprint(out[0])
+			if found {
+				nRed++
+				for _, e := range red.Entries {
+					if !containsAll(got, e.InitialBalance.String(), fmt.Sprint(e.CreationHeight), e.SharesDst.TruncateInt().String()) {
+						return fail("query-differs:staking.redelegation", fmt.Sprintf("redelegation %s -> %s entry %+v missing from %s", src.OperatorAddress, dst.OperatorAddress, e, trunc(got)))
+					}
+				}
+				// the paginated variant reports the same entries
+				outs, err := call("staking", "redelegations", pxSigner.Hex, src.OperatorAddress, dst.OperatorAddress, pageReq{Limit: 10})
+				if err != nil {
+					return fail("query-failed:staking.redelegations", err.Error())
+				}
+				gots := fmt.Sprint(outs[0])
+				for _, e := range red.Entries {
+					if !containsAll(gots, e.InitialBalance.String(), fmt.Sprint(e.CreationHeight)) {
+						return fail("query-differs:staking.redelegations", fmt.Sprintf("redelegations(%s -> %s) lacks entry %+v: %s", src.OperatorAddress, dst.OperatorAddress, e, trunc(gots)))
+					}
+				}
+			} else if strings.Contains(got, src.OperatorAddress) && strings.Contains(got, "{") && containsAll(got, "creationHeight") {
+				return fail("query-differs:staking.redelegation", fmt.Sprintf("redelegation %s -> %s does not exist natively but the precompile reports %s", src.OperatorAddress, dst.OperatorAddress, trunc(got)))
+			}
+		}
+	}
+	if nRed > 0 {
+		st.Class("redelegation-entries-compared")
+	}
+	// validators(status, page): every validator of that status with its tokens, nobody else
+	for _, status := range []string{stakingtypes.BondStatusBonded, stakingtypes.BondStatusUnbonding, stakingtypes.BondStatusUnbonded} {
+		outv, err := call("staking", "validators", status, pageReq{Limit: 50})
+		if err != nil {
+			return fail("query-failed:staking.validators", err.Error())
+		}
+		gotv := fmt.Sprint(outv[0])
+		for _, v := range app.StakingKeeper.GetAllValidators(ctx) {
+			has := strings.Contains(gotv, v.OperatorAddress)
+			if want := v.GetStatus().String() == status; has != want {
+				return fail("query-differs:staking.validators", fmt.Sprintf("validators(%s): %s (status %s) listed=%v", status, v.OperatorAddress, v.GetStatus(), has))
+			} else if want && !strings.Contains(gotv, v.Tokens.String()) {
+				return fail("query-differs:staking.validators", fmt.Sprintf("validators(%s): tokens %s of %s not reported: %s", status, v.Tokens, v.OperatorAddress, trunc(gotv)))
 			}
 		}
 	}
